@@ -11,6 +11,13 @@ Ties (all on the REAL nutils code, every run):
                faces and interfaces (element, face, opposite element, opposite face) against the model.
     * trim1d — real `LineReference.trim` (bisection, binning), `baseref - ref`, negated level set: reference trees, volumes and
                exposed end points against the model; plus real 1-D `topo.trim` on line meshes.
+    * axis   — real `transformseq.DimAxis / IntAxis` objects through random refined / slice / boundary layer / interface layer /
+               opposite pipelines against the Lean axis model (`Model/C10Axis.lean`) and an exact enumeration of the cells the axis
+               must list (theorems `axis_refined_children`, `axis_refined_boundary_child`, `axis_slice`).
+(S') exact integer oracle without model: sbnd (nvh/c10x.py) — slices and uniform refinements of (periodic) boxes, then boundary /
+     refine in all orders, named groups, boundary of the boundary, refined interfaces, every face located by the real lookup.
+(S'') trimnodal (nvh/c10x.py, worker processes) — trimming with zero-rich NODAL level sets (partial faces between neighbours):
+     partition, per-element divergence theorem, perimeter bookkeeping, closed boundary, shared cut.
 (S) specification oracle on real code for everything else (simplex, mixed, multipatch, products, n-d trimming with mosaics, unions):
     measured identities with tolerance 1e-10 (>= 1e-8 is a failing input): volume conserved by refinement, pos + neg = whole after
     trimming, closed boundary  ∮ n = 0, divergence identity with a discontinuous weight w
@@ -325,6 +332,10 @@ def run(c):
         except multiprocessing.TimeoutError:
             raise Infra('trimnodal workers timed out')
     ctx.finish_trimnodal(recs); c.log('trimnodal done')
+    import os
+    t = os.times()
+    c.extra['cpu_seconds'] = dict(parent=round(t.user + t.system, 1), children=round(t.children_user + t.children_system, 1))
+    c.log('cpu: parent %.0fs, children (lake, lean driver, workers) %.0fs' % (t.user + t.system, t.children_user + t.children_system))
     for b in broken:
         c.broken_no_input('proof', b, dict(detail=b))
 
